@@ -168,6 +168,10 @@ def chk_coll(rec, be):
                     sub, hdr, fl(r.spikes), r.t_start, r.t_end, exp, ts * sg, te * sg)))
         if any(not np.array_equal(s.spikes, sn) for s, sn in zip(sts, snap)):
             out.append(_mm(sub, "%s %s: merge modified its inputs" % (sub, hdr)))
+        if st == "ok" and len(r.spikes):
+            r.spikes += 1.0         # the merged train must own its array
+            if any(not np.array_equal(s.spikes, sn) for s, sn in zip(sts, snap)):
+                out.append(_mm(sub, "%s %s: the merged train shares its array with an input" % (sub, hdr)))
         for k in range(1, len(sts)):
             sts[k].t_start, sts[k].t_end = ts * sg, te * sg
         b = float(fr(rec["bin"])) * sg
